@@ -48,6 +48,12 @@ def cases(ctx):
         c = gen.rand_circuit(r, n_in=r.randint(1, 4), n_gates=r.randint(1, 9), max_fanin=4, consts=0.4, out_is_input=0.3, loaded_in_out=0.15)
         if r.random() < 0.2:
             c.graph.add_node("kout", type=r.choice(["0", "1"]), output=True)
+        if r.random() < 0.1:
+            import networkx as nx
+
+            # names far longer than a text line (hierarchical names flattened by a synthesis tool)
+            gates = [n for n in sorted(c.graph.nodes) if c.graph.nodes[n]["type"] != "input"]
+            nx.relabel_nodes(c.graph, {g: g + "_" + "x" * r.choice([70, 90, 200]) for g in r.sample(gates, min(len(gates), 2))}, copy=False)
         if r.random() < 0.3:
             # nets called like helper nets a writer could invent next to an input: <input>_not, <input>_dup, <input>_0
             import networkx as nx
